@@ -81,6 +81,13 @@ def run(ctx):
     stat_cfgs = [dc(op="pg", n=5, N=rs.choice([3, 5, 10]), style=rs.choice(["binom", "gauss"]), grid=rs.choice([7, 11]), proposal=p_, wiring=rs.choice(["run", "lib"]),
                     data_seed=rs.randrange(1 << 30), alpha=rs.choice([0.5, 1.0, 2.0]), outlier_prob=rs.choice([0.0, 0.0, 0.1]), threshold=rs.choice([0.5, 1.0]))
                  for p_ in (PROPOSALS if ctx.tier != "quick" else [rs.choice(PROPOSALS)])]
+    # many particles (the run default is 80): three all-different data points, 30 particles - the update must not behave
+    # differently from start trees of one, two and three clones
+    stat_cfgs.append(dict(dc(op="pg", n=3, N=30, style=rs.choice(["binom", "gauss"]), grid=7, proposal=rs.choice(PROPOSALS), wiring="run", data_seed=rs.randrange(1 << 30),
+                             alpha=rs.choice([1.0, 3.0]), threshold=0.5), stat_M=100000 if ctx.tier == "quick" else 400000))
+    if ctx.tier != "quick":
+        stat_cfgs.append(dict(dc(op="pg", n=5, N=80, style="binom", grid=7, proposal="bootstrap", wiring="run", data_seed=rs.randrange(1 << 30), alpha=1.0, threshold=0.5), stat_M=150000))
+        stat_cfgs.append(dict(dc(op="pg", n=4, N=40, style="gauss", grid=7, proposal="semi-adapted", wiring="lib", data_seed=rs.randrange(1 << 30), alpha=2.0, threshold=0.5), stat_M=200000))
     kernelcheck.run_stat_configs(ctx, stat_cfgs, 8000 if ctx.tier == "quick" else 150000)
     # beyond the traversable sizes: sampled paths with path-local oracles only (can refute, never confirm)
     seeds = [ctx.sub(("path", i)) for i in range(160 if ctx.tier == "quick" else 6000)]
